@@ -62,6 +62,23 @@ func c19(c *core.Ctx) {
 			if v == 0x0111 {
 				c.Sample(map[string]interface{}{"wire": v, "method": uint16(t.Method), "class": uint8(t.Class)})
 			}
+			// receivers that already hold something, including field values no wire value produces (the fields are
+			// exported: Method is a uint16, Class a byte) and that agree with v in their low bits
+			for k, pre := range []stun.MessageType{
+				{Method: stun.Method(m | 0x1000), Class: stun.MessageClass(cl)},
+				{Method: stun.Method(m), Class: stun.MessageClass(cl | 4)},
+				{Method: stun.Method(m | 0xF000), Class: stun.MessageClass(cl | 0xFC)},
+				{Method: stun.Method(m ^ 0x8001), Class: stun.MessageClass(cl ^ 0x81)},
+				{Method: stun.Method(m | uint16(1)<<(12+uint(lo)%4)), Class: stun.MessageClass(cl | uint8(1)<<(2+uint(lo)%6))},
+			} {
+				t2 := pre
+				t2.ReadValue(v)
+				c.Eval(1)
+				if uint16(t2.Method) != m || uint8(t2.Class) != cl {
+					c.Violate("readvalue-mismatch", "ReadValue:used-receiver", map[string]interface{}{"v": v, "receiver_before": fmt.Sprintf("%#x/%#x", uint16(pre.Method), uint8(pre.Class)),
+						"variant": k, "got_method": t2.Method, "got_class": t2.Class, "want_method": m, "want_class": cl})
+				}
+			}
 		}
 	})
 	c.MarkExhaustive("readvalue")
